@@ -468,7 +468,7 @@ def handle (j : Json) : Except String Ans := do
       let p : Prov.P ← get j "prov"
       let D ← domOf (← get j "dom")
       pure (match (Oracle.compile p : Except Err (Oracle.Compiled (AVal D))) with
-        | .ok c => .ok (Json.mkObj [("add", diagramJ c.add), ("locs", ToJ.toJ c.locs)])
+        | .ok c => .ok (Json.mkObj [("add", diagramJ c.add), ("locs", ToJ.toJ c.locs), ("locSpecOk", ToJ.toJ (Oracle.locSpecOk p c))])
         | .error e => .err e)
   | "oracle" => do
       let p : Prov.P ← get j "prov"
@@ -490,7 +490,7 @@ def handle (j : Json) : Except String Ans := do
                 else Json.null
               Json.mkObj [("counts", ToJ.toJ counts), ("spec", spec)]
           | .error e => Json.mkObj [("err", Json.str e.name)])
-        pure (.ok (Json.mkObj [("vecs", ToJ.toJ D.vecs), ("results", Json.arr res.toArray)]))
+        pure (.ok (Json.mkObj [("vecs", ToJ.toJ D.vecs), ("results", Json.arr res.toArray), ("locSpecOk", ToJ.toJ (Oracle.locSpecOk p b.base))]))
   | "addpath" => do
       let p : Prov.P ← get j "prov"
       let labels : List Nat ← get j "labels"
